@@ -63,7 +63,7 @@ func splitByParam(f *Form) (map[int]*Form, bool) {
 	params := map[int]bool{}
 	f.Atoms(func(a *LAtom) {
 		if a.Kind != "prop" {
-			params[a.Term.Param] = true
+			params[a.Term.Key()] = true
 		}
 	})
 	out := map[int]*Form{}
@@ -84,8 +84,13 @@ func projectForm(f *Form, param int, pos bool) *Form {
 		return fTrue()
 	case "not":
 		return projectForm(f.Sub[0], param, !pos)
+	case "over":
+		if !pos {
+			return fTrue()
+		}
+		return projectForm(f.Sub[0], param, true)
 	case "atom":
-		if f.Atom.Kind != "prop" && f.Atom.Term.Param != param {
+		if f.Atom.Kind != "prop" && f.Atom.Term.Key() != param {
 			return fTrue()
 		}
 		if pos {
